@@ -2,10 +2,14 @@
 
     A file is the list of lines of its text ([text.split('\n')]: a trailing
     newline shows up as a final empty line), a line is the list of its
-    whitespace-separated tokens ([line.split()]).  Character-level formatting
-    is *trusted*, i.e. outside the model: [str(int)] / [int(str)] are inverse
-    on canonical decimals, [str(x)[0] == '-'] iff [x < 0], [str(x)[1:]] is
-    [str(-x)] for negative [x], tokens are separated by single blanks.
+    whitespace-separated tokens ([line.split()]).  The character level below
+    this view is modelled in Text/Chars.v (the string primitives) and
+    Text/TextChars.v (the lexer [lex_file] from text to the token files of this
+    file, and the writers' text character by character); Text/CharsProofs.v and
+    Text/TextCharsProofs.v prove what used to be trusted here: [str(int)] /
+    [int(str)] are inverse on canonical decimals, [str(x)[0] == '-'] iff
+    [x < 0], [str(x)[1:]] is [str(-x)] for negative [x], and the text of every
+    writer lexes to the token file of the token-level model.
 
     Tokens:
       [TI z]      the decimal rendering [str(z)]
